@@ -24,6 +24,7 @@ type SolverStats struct {
 type Solver struct {
 	cmd    *exec.Cmd
 	in     io.WriteCloser
+	w      *bufio.Writer
 	out    *bufio.Reader
 	names  map[*Term]string // terms defined in the current session
 	vars   map[string]int   // declared variables (name -> width)
@@ -59,6 +60,7 @@ func (s *Solver) start() error {
 		return err
 	}
 	s.cmd, s.in, s.out = cmd, in, bufio.NewReader(out)
+	s.w = bufio.NewWriterSize(in, 1<<16)
 	s.names = map[*Term]string{}
 	s.vars = map[string]int{}
 	s.nextID = 0
@@ -78,8 +80,8 @@ func (s *Solver) send(line string) {
 	if s.Log != nil {
 		fmt.Fprintln(s.Log, line)
 	}
-	io.WriteString(s.in, line)
-	io.WriteString(s.in, "\n")
+	s.w.WriteString(line)
+	s.w.WriteByte('\n')
 }
 
 // Reset clears all assertions and definitions (start of a new path).
@@ -158,6 +160,7 @@ func (r SatResult) String() string {
 }
 
 func (s *Solver) readLine() (string, error) {
+	s.w.Flush()
 	line, err := s.out.ReadString('\n')
 	return strings.TrimSpace(line), err
 }
